@@ -31,7 +31,7 @@ func switchTable(ep *EmittedPkg, fd *ast.FuncDecl, tagText string) (arms map[str
 				ast.Inspect(b, func(m ast.Node) bool {
 					if call, ok := m.(*ast.CallExpr); ok {
 						if cal := ep.CalleeOf(call); cal != nil {
-							callees = append(callees, cal.Name())
+							callees = append(callees, ep.RecName(cal))
 						}
 					}
 					return true
@@ -113,7 +113,7 @@ func checkC09(c *Ctx) {
 	dr := eff.derived(lit.Body, rObj)
 	lf := func(call *ast.CallExpr) []string {
 		var ls []string
-		if cal := ep.CalleeOf(call); cal != nil && cal.Name() == "validateHeaders" {
+		if cal := ep.CalleeOf(call); cal != nil && ep.RecName(cal) == "validateHeaders" {
 			ls = append(ls, "H")
 		}
 		for _, ev := range eff.callEvents(call, dr) {
